@@ -15,6 +15,8 @@ FAIL_KINDS = {
     "recommendation not met": "recommends",
     "decreases not satisfied": "decreases",
     "loop invariant not satisfied": "invariant",
+    "unable to prove post-condition of closure": "postcondition",
+    "unable to prove pre-condition of closure call": "precondition",
 }
 
 
